@@ -64,6 +64,10 @@ struct Counts {
     signalled: usize,
     done: usize,
     req: usize,
+    /// requests as seen at the scheduler's entry (`Actor::re_stun`)
+    trigger: usize,
+    /// run tasks that really began (recorded by the task itself)
+    task_start: usize,
 }
 
 fn counts(ev: &[String]) -> Counts {
@@ -71,6 +75,12 @@ fn counts(ev: &[String]) -> Counts {
     for e in ev {
         if e.starts_with("req ") {
             c.req += 1;
+        }
+        if e.starts_with("trigger ") {
+            c.trigger += 1;
+        }
+        if e == "task-start" {
+            c.task_start += 1;
         }
         if e.starts_with("done ") {
             c.done += 1;
@@ -98,7 +108,7 @@ fn parked_total() -> usize {
 /// reacted to every done signal.
 fn settled(c: &Counts) -> bool {
     let finished = c.releasing.min(c.signalled);
-    c.started == c.spawn + c.skip && c.spawn >= finished && c.spawn - finished == parked_total() && c.done == c.signalled
+    c.started == c.spawn + c.skip && c.spawn == c.task_start && c.spawn >= finished && c.spawn - finished == parked_total() && c.done == c.signalled
 }
 
 impl Session {
@@ -172,15 +182,23 @@ struct C25 {
     session: Option<Result<Session, String>>,
 }
 
-/// The statement of C25 evaluated on an observed trace that ended in a settled, gate-free state.
+/// Events that only the oracle looks at (not part of the scheduler's decision trace).
+fn oracle_only(e: &str) -> bool {
+    e == "task-start" || e.starts_with("trigger ")
+}
+
+/// The statement of C25 evaluated on what really happened (trace ended in a settled, gate-free
+/// state).  Behavioural: requests are taken where they enter the scheduler (`trigger`, recorded by
+/// the caller) and runs where the run task itself begins (`task-start`) or `run` completes at once
+/// (`skip`) — not from the scheduler's own account of its decisions.
 fn oracle(ev: &[String], ex: &mut Exec) {
-    // at most one report runs at a time: no `spawn` between a `spawn` and its `releasing`
+    // at most one report runs at a time: no run task begins between a begin and its `releasing`
     let mut running = false;
     for (i, e) in ev.iter().enumerate() {
         match e.as_str() {
-            "spawn" => {
+            "task-start" => {
                 if running {
-                    ex.violation("two-runs", format!("event {i}: a run was started while another one holds the reporter"));
+                    ex.violation("two-runs", format!("event {i}: a run task began while another one holds the reporter"));
                 }
                 running = true;
             }
@@ -188,14 +206,22 @@ fn oracle(ev: &[String], ex: &mut Exec) {
             _ => {}
         }
     }
-    // no lost update: a request that was deferred is followed by a run
+    // no lost update: after every request a run begins (the request's own, or — when one was in
+    // flight — a new one once that has finished)
     for (i, e) in ev.iter().enumerate() {
-        if e.starts_with("req ") && e.ends_with(" deferred") {
-            let later_run = ev[i + 1..].iter().any(|x| x == "spawn" || x.starts_with("skip "));
+        if e.starts_with("trigger ") {
+            let in_flight = {
+                let c = counts(&ev[..i]);
+                c.task_start > c.releasing
+            };
+            let later_run = ev[i + 1..].iter().any(|x| x == "task-start" || x.starts_with("skip "));
             if !later_run {
                 ex.violation(
                     "lost-update",
-                    format!("event {i} `{e}`: the system is quiescent (no run in flight, every done signal handled) and no run was started after the request"),
+                    format!(
+                        "event {i} `{e}` ({}): the system is quiescent (no run in flight, every done signal handled) and no run began after the request",
+                        if in_flight { "a run was in flight" } else { "no run was in flight" }
+                    ),
                 );
             }
         }
@@ -203,8 +229,15 @@ fn oracle(ev: &[String], ex: &mut Exec) {
 }
 
 /// Observed trace → the label sequence that the Lean model replays.
-fn labels(ev: &[String]) -> Vec<String> {
+fn labels(all: &[String]) -> Vec<String> {
+    let ev: Vec<String> = all.iter().filter(|e| !oracle_only(e)).cloned().collect();
+    let ev = &ev[..];
     let mut out = Vec::new();
+    let c = counts(all);
+    if c.trigger != c.req {
+        // a request entered the scheduler without a recorded decision: the hooks no longer see what the code does
+        out.push("?".into());
+    }
     let mut i = 0;
     while i < ev.len() {
         let e = &ev[i];
@@ -301,12 +334,12 @@ impl C25 {
                     }
                 }
                 (Some('q'), _) => {
-                    let want = counts(&trace::since(from)).req + 1;
+                    let want = counts(&trace::since(from)).trigger + 1;
                     if parked_total() > 0 {
                         overlap_seen = true;
                     }
                     sess.request();
-                    timeout |= !sess.wait(from, SETTLE, |c| c.req >= want);
+                    timeout |= !sess.wait(from, SETTLE, |c| c.trigger >= want);
                 }
                 _ => {}
             }
@@ -315,7 +348,7 @@ impl C25 {
         let ev = trace::since(from);
         deferred_seen |= ev.iter().any(|e| e.ends_with(" deferred"));
         let mut labs = labels(&ev);
-        let mut out = ev.join(";");
+        let mut out = ev.iter().filter(|e| !oracle_only(e)).cloned().collect::<Vec<_>>().join(";");
         if timeout {
             labs.push("T".into());
             out.push_str(";timeout");
